@@ -290,7 +290,72 @@ class _Spellings(ast.NodeTransformer):
         return n
 
 
+def _reraise_only(h):
+    """handler `except E [as e]: [logging calls]; raise` or `...; raise E(<message>) [from e]`: the failure still
+    propagates as an E - only its text (and the log) differ"""
+    if h.type is None or not h.body or not isinstance(h.body[-1], ast.Raise):
+        return False
+    for st in h.body[:-1]:
+        if not (isinstance(st, ast.Expr) and isinstance(st.value, ast.Call) and isinstance(st.value.func, ast.Attribute)
+                and st.value.func.attr in ('debug', 'info', 'warning', 'error', 'critical', 'exception')):
+            return False
+    r = h.body[-1]
+    if r.exc is None:
+        return True
+    caught = [h.type] if not isinstance(h.type, ast.Tuple) else list(h.type.elts)
+    if len(caught) != 1 or not isinstance(caught[0], (ast.Name, ast.Attribute)):
+        return False
+    exc = r.exc.func if isinstance(r.exc, ast.Call) else r.exc
+    return ast.unparse(exc) == ast.unparse(caught[0])
+
+
+class _Structure(ast.NodeTransformer):
+    """try: BODY / except E: [log]; raise [E(msg) from e]   ->   BODY      (no else / finally; every handler re-raises)
+       a trailing `return None` / `return` at the very end of a function            ->   dropped
+       assert <condition>                                                           ->   dropped
+    (an assert states what the author believes always holds; with -O it is not even executed.  A rule never relies on
+    one; dropping it keeps rules from counting its calls as work done)"""
+    def __init__(self):
+        self.n = 0
+
+    def _flatten(self, body):
+        out = []
+        for st in body:
+            if isinstance(st, ast.Try) and not st.orelse and not st.finalbody and st.handlers and \
+                    all(_reraise_only(h) for h in st.handlers):
+                out.extend(st.body)
+                self.n += 1
+            elif isinstance(st, ast.Assert):
+                self.n += 1
+            else:
+                out.append(st)
+        if not out:
+            p_ = ast.Pass()
+            ast.copy_location(p_, body[0])
+            out = [p_]
+        return out
+
+    def generic_visit(self, node):
+        super().generic_visit(node)
+        for fld in ('body', 'orelse', 'finalbody'):
+            b = getattr(node, fld, None)
+            if isinstance(b, list) and b and isinstance(b[0], ast.stmt):
+                setattr(node, fld, self._flatten(b))
+        if isinstance(node, ast.Try):
+            for h in node.handlers:
+                h.body = self._flatten(h.body)
+        if isinstance(node, (ast.FunctionDef, ast.AsyncFunctionDef)) and len(node.body) > 1:
+            last = node.body[-1]
+            if isinstance(last, ast.Return) and (last.value is None or
+                                                 (isinstance(last.value, ast.Constant) and last.value.value is None)):
+                node.body = node.body[:-1]
+                self.n += 1
+        return node
+
+
 def normalise(tree):
     sp = _Spellings()
     sp.visit(tree)
-    return loops_to_comps(tree) + sp.n
+    stc = _Structure()
+    stc.visit(tree)
+    return loops_to_comps(tree) + sp.n + stc.n
